@@ -431,9 +431,13 @@ func NewReader(r io.Reader, rd int) (*Reader, error) {
 			for dec := range bg.waiting {
 				var open bool
 				if next < 0 {
-					next, open = <-bg.control
-					if !open {
-						return
+					// Read-ahead has nowhere to go (end of input, a
+					// failed member or a failed Seek): wait to be told.
+					for next < 0 {
+						next, open = <-bg.control
+						if !open {
+							return
+						}
 					}
 				} else {
 					select {
@@ -657,15 +661,31 @@ func (bg *Reader) nextBlock() error {
 		for i := 0; i < cap(bg.working); i++ {
 			dec := <-bg.working
 			bg.current, err = dec.wait()
-			bg.waiting <- dec
 			if bg.current.Base() == base {
+				bg.waiting <- dec
 				ok = true
 				break
 			}
-			if err == nil {
-				bg.keep(bg.current)
-				bg.current = nil
+			if err != nil {
+				// Read-ahead failed at another offset and has stopped
+				// there, so the wanted block will not arrive: read it
+				// here and restart read-ahead after it.
+				bg.current, err = dec.
+					using(bg.current).
+					nextBlockAt(base, nil).
+					wait()
+				select {
+				case <-bg.control:
+				default:
+				}
+				bg.control <- bg.current.NextBase()
+				bg.waiting <- dec
+				ok = true
+				break
 			}
+			bg.waiting <- dec
+			bg.keep(bg.current)
+			bg.current = nil
 		}
 		if !ok {
 			panic("bgzf: unexpected block")
